@@ -110,12 +110,19 @@ CLASSES = {c.__name__: c for c in (P1, P2, Q1, Q2, S1, S2)}
 def _types():
     from fileformats.generic import File
 
-    return {
-        "int": int, "float": float, "str": str, "bool": bool, "bytes": bytes, "list": list, "dict": dict,
-        "list[int]": list[int], "list[str]": list[str], "dict[str,int]": dict[str, int],
-        "tuple[int,str]": tuple[int, str], "int|str": int | str, "int|None": int | None,
-        "Path": pathlib.Path, "P1": P1, "Q1": Q1, "File": File,
-    }
+    plain = {"int": int, "float": float, "str": str, "bool": bool, "bytes": bytes, "list": list, "dict": dict,
+             "tuple": tuple, "Path": pathlib.Path, "P1": P1, "Q1": Q1, "File": File}
+    pool = {n: (tp, n, "none") for n, tp in plain.items()}
+    pool.update({
+        "list[int]": (list[int], "list", "builtin"), "list[str]": (list[str], "list", "builtin"),
+        "dict[str,int]": (dict[str, int], "dict", "builtin"), "dict[str,str]": (dict[str, str], "dict", "builtin"),
+        "tuple[int,str]": (tuple[int, str], "tuple", "builtin"), "tuple[int,...]": (tuple[int, ...], "tuple", "builtin"),
+        "List[float]": (ty.List[float], "list", "typing"), "Tuple[str,int]": (ty.Tuple[str, int], "tuple", "typing"),
+        "Dict[int,str]": (ty.Dict[int, str], "dict", "typing"),
+        "int|str": (int | str, "union", "union"), "int|None": (int | None, "union", "union"),
+        "Union[float,str]": (ty.Union[float, str], "union", "typing"),
+    })
+    return pool
 
 
 _TYPES = None
@@ -198,7 +205,7 @@ def _build(t, order, memo, files):
     if k == "path":
         return getattr(pathlib, t["cls"])(t["v"])
     if k == "type":
-        return types_pool()[t["v"]]
+        return types_pool()[t["v"]][0]
     if k == "func":
         if t["cells"]:
             (name, cell), = t["cells"]
@@ -252,9 +259,9 @@ def term_of(v):
         return {"k": "dict", "v": [[term_of(a), term_of(b)] for a, b in v.items()]}
     if isinstance(v, pathlib.PurePath):
         return {"k": "path", "cls": type(v).__name__, "v": str(v)}
-    for name, tp in types_pool().items():
-        if v is tp or (not isinstance(v, type) and isinstance(tp, type(v)) and v == tp):
-            return {"k": "type", "v": name}
+    for name, (tp, origin, alias) in types_pool().items():
+        if v is tp or (not isinstance(v, type) and type(tp) is type(v) and v == tp):
+            return {"k": "type", "v": name, "origin": origin, "alias": alias}
     if callable(v) and getattr(v, "__name__", None) in FUNCS and FUNCS[v.__name__] is v:
         return {"k": "func", "v": v.__name__, "cells": []}
     if callable(v) and getattr(v, "__qualname__", "") == "fac_add.<locals>.add_k":
@@ -501,8 +508,8 @@ def run_sessions(ctx, specs, timeout=300):
 # --------------------------------------------------------------------------------------
 # TLC: term generation (M2) and trace validation (M4)
 # --------------------------------------------------------------------------------------
-def gen_terms(ctx, family, natoms=8, nsmall=2, maxlen1=2, maxlen2=2, arrsizes=(2, 6)):
-    cfg = ctx.scratch / f"idgen_{family}_{natoms}_{nsmall}_{maxlen1}_{maxlen2}.cfg"
+def gen_terms(ctx, family, natoms=8, nsmall=2, maxlen1=2, maxlens=2, maxlen2=2, arrsizes=(2, 6)):
+    cfg = ctx.scratch / f"idgen_{family}_{natoms}_{nsmall}_{maxlen1}_{maxlens}_{maxlen2}.cfg"
     cfg.write_text(f"""INIT Init
 NEXT Next
 CONSTANTS
@@ -510,6 +517,7 @@ CONSTANTS
   NAtoms = {natoms}
   NSmall = {nsmall}
   MaxLen1 = {maxlen1}
+  MaxLenS = {maxlens}
   MaxLen2 = {maxlen2}
   ArrSizes = {{{", ".join(str(n) for n in arrsizes)}}}
 INVARIANT Emit
@@ -521,6 +529,34 @@ CHECK_DEADLOCK FALSE
     if len(terms) != r.distinct or not terms:
         raise core.MachineryError(f"Identity_Gen printed {len(terms)} terms for {r.distinct} states")
     return terms
+
+
+OBS_CFG = """SPECIFICATION OSpec
+VIEW View
+INVARIANT Done
+CHECK_DEADLOCK FALSE
+"""
+
+
+def validate_obs(ctx, obs, name="obs"):
+    """Large observation logs: TLC (Identity_Obs) checks the key<->digest relation over all pairs of
+    observations.  Returns (reports, summary); report indices l / with are 1-based positions in obs;
+    reports carry tid = 1 so that judge_observe_reports(ctx, reps, [obs], ...) applies."""
+    if not obs:
+        raise core.MachineryError("no observations to validate")
+    tf = ctx.scratch / f"{name}.ndjson"
+    with open(tf, "w") as f:
+        for e in obs:
+            f.write(json.dumps({k: e[k] for k in ("term", "hassrc", "src", "cfg", "digest")}) + "\n")
+    cfg = ctx.scratch / "identity_obs.cfg"
+    cfg.write_text(OBS_CFG)
+    r = ctx.tlc("Identity_Obs", cfg=cfg, workers=1, env={"TRACE_FILE": str(tf)}, timeout=1500)
+    recs = r.printed()
+    sums = [x for x in recs if x.get("done")]
+    reps = [dict(x, tid=1) for x in recs if not x.get("done")]
+    if len(sums) != 1 or sums[0]["events"] != len(obs) or sums[0]["reports"] != len(reps):
+        raise core.MachineryError("observation validation incomplete:\n" + "\n".join(r.out.splitlines()[-20:]))
+    return reps, sums[0]
 
 
 def gen_terms_many(ctx, families):
@@ -580,6 +616,8 @@ KNOWN_BY_SWITCH = {
     "closure-value": {"C06": "C06-closure-value", "C08": "C08-closure-value", "C07": "C07-closure-value"},
     "shell-field-metadata": {"C06": "C06-shell-field-metadata", "C07": "C07-shell-field-metadata",
                              "C08": "C08-shell-field-metadata"},
+    "generic-alias-args": {"C06": "C06-generic-alias-args", "C07": "C07-generic-alias-args",
+                           "C08": "C08-generic-alias-args"},
 }
 
 
@@ -652,3 +690,32 @@ def replay_observe_pair(ctx, rec):
     print("replay reports:", json.dumps(reps)[:600])
     judge_observe_reports(ctx, reps, [evs], {case["inv"]})
 
+
+
+def judge_submit_reports(ctx, reps, traces, invs, describe=None, cap=6):
+    """Turn Submit reports of Identity_Trace (HitOnlyAfterEqualKey / HitReturnsFresh / FoundByNext)
+    into verdicts; the case carries the whole trace (history) for replay."""
+    per_class = {}
+    for r in reps:
+        if "expected" not in r:
+            continue
+        tr = traces[r["tid"] - 1]
+        e = tr[r["l"] - 1]
+        if r["inv"] not in invs:
+            ctx.observe(f"{r['inv']} report outside this property (decided by another check)",
+                        {"event": short(_strip(e))})
+            continue
+        kid = known_id_for(ctx.prop, r["blame"])
+        cls = (r["inv"], kid)
+        per_class[cls] = per_class.get(cls, 0) + 1
+        if per_class[cls] > cap and not (kid and kid in ctx.known and ctx.known[kid].get("status") == "known"):
+            continue
+        what = {"HitOnlyAfterEqualKey": "cache hit for a task that was never submitted (another task's result served)",
+                "HitReturnsFresh": "returned outputs differ from executing the task now",
+                "FoundByNext": "a result computed earlier in this cache root was not found"}[r["inv"]]
+        ctx.judge(False, f"{r['inv']}: {what}" + (f" [{describe(tr, r)}]" if describe else ""),
+                  case={"kind": "submit-history", "history": [_strip(x) for x in tr], "at": r["l"], "inv": r["inv"],
+                        "blame": sorted(r["blame"]), "meta": tr[0].get("meta")},
+                  expected=r["expected"], observed=r["observed"], known_id=kid, asbuilt=r["asbuilt"])
+    ctx.extra.setdefault("reports_per_class", {}).update({f"{k[0]}/{k[1]}": v for k, v in per_class.items()})
+    return per_class
